@@ -60,7 +60,33 @@ def _external(smt2: str, cmd: list[str], timeout_s: int) -> str:
         os.unlink(path)
 
 
-def prove(assumptions, goal, *, want_model=True, fallbacks=True) -> Verdict:
+_PRIMES = [3, 5, 7, 11, 13, 17, 19, 23, 29, 31, 37, 41, 43, 47, 53, 59, 61, 67, 71, 73, 79, 83, 89, 97, 101, 103, 107, 109, 113]
+
+
+def _generic_model(s, inputs):
+    """The first model of a refuted goal is often degenerate (zeros, differences of 1e-9) and then does not
+    survive float replay.  Look for a counter-model at generic, well separated input values."""
+    reals = [c for c in inputs if z3.is_real(c)]
+    patterns = [
+        lambda i: _PRIMES[i % len(_PRIMES)],
+        lambda i: _PRIMES[i % len(_PRIMES)] * (1 if i % 2 == 0 else -1),
+        lambda i: z3.RealVal(f"{_PRIMES[(i * 7 + 3) % len(_PRIMES)]}/4"),
+        lambda i: z3.RealVal(f"{_PRIMES[i % len(_PRIMES)]}/16") * (1 if i % 3 else -1),
+    ]
+    for keep in (len(reals), max(1, len(reals) // 2), max(1, len(reals) // 4)):
+        for pat in patterns:
+            s.push()
+            try:
+                for i, c in enumerate(reals[:keep]):
+                    s.add(c == pat(i))
+                if s.check() == z3.sat:
+                    return s.model()
+            finally:
+                s.pop()
+    return None
+
+
+def prove(assumptions, goal, *, want_model=True, fallbacks=True, generic_inputs=()) -> Verdict:
     """Is  /\\assumptions => goal  valid?"""
     t0 = time.time()
     s = _mk_solver(RLIMIT_PROVE, TIMEOUT_MS)
@@ -72,7 +98,12 @@ def prove(assumptions, goal, *, want_model=True, fallbacks=True) -> Verdict:
     if r == z3.unsat:
         return Verdict("proved", tried[0], time.time() - t0, tried=tried)
     if r == z3.sat:
-        return Verdict("refuted", tried[0], time.time() - t0, model=s.model() if want_model else None, tried=tried)
+        model = s.model() if want_model else None
+        if want_model and generic_inputs:
+            better = _generic_model(s, generic_inputs)
+            if better is not None:
+                model = better
+        return Verdict("refuted", tried[0], time.time() - t0, model=model, tried=tried)
     reason = s.reason_unknown()
     if fallbacks:
         smt2 = "(set-logic ALL)\n" + s.to_smt2()
